@@ -41,6 +41,13 @@ func (t *stampRT) RoundTrip(req *http.Request) (*http.Response, error) {
 	return t.inner.RoundTrip(req)
 }
 
+// CloseIdleConnections lets http.Client.CloseIdleConnections reach the real transport.
+func (t *stampRT) CloseIdleConnections() {
+	if c, ok := t.inner.(interface{ CloseIdleConnections() }); ok {
+		c.CloseIdleConnections()
+	}
+}
+
 type freeUser struct {
 	id        int
 	layers    []int
@@ -49,6 +56,12 @@ type freeUser struct {
 	a, b      int64 // logical time of "Realize returned" and "about to Close"
 	cancelled atomic.Bool
 	mode      int // 0: Realize, Close; 1: Realize twice on one proxy, Close; 2: Close twice; 3: Close, Realize again, Close
+}
+
+// failU records an unexplained failure and stops the collector (see noGC).
+func failU(r *hx.Run, what string) {
+	stopCollecting()
+	r.Fail("", what)
 }
 
 // yielder perturbs the schedule at the hook points.
@@ -90,7 +103,7 @@ func freeRun(r *hx.Run, rnd *hx.Rand, idx int, maxUsers int) {
 			valid = false
 			bad[i] = "not-a-tar"
 		}
-		layers = append(layers, mkLayer(i, valid, 100+rnd.Intn(60000)))
+		layers = append(layers, mkLayerZ(i, valid, 100+rnd.Intn(60000), i%3))
 	}
 	srv := newServer(layers)
 	flaky := map[int]*atomic.Int32{}
@@ -122,7 +135,7 @@ func freeRun(r *hx.Run, rnd *hx.Rand, idx int, maxUsers int) {
 	client := &http.Client{Transport: rt}
 	root, err := os.MkdirTemp("", "c10-free-")
 	if err != nil {
-		r.Fail("", "cannot-create-arena "+err.Error())
+		failU(r, "cannot-create-arena "+err.Error())
 		return
 	}
 	defer os.RemoveAll(root)
@@ -209,7 +222,7 @@ func freeRun(r *hx.Run, rnd *hx.Rand, idx int, maxUsers int) {
 			out := hx.Guard(func() string { ls, u.err = p.RealizeDescriptions(ctx, descs); return "" })
 			if out == "panic" {
 				u.err = fmt.Errorf("panic")
-				r.Fail("", label+" RealizeDescriptions-panicked user="+strconv.Itoa(u.id))
+				failU(r, label+" RealizeDescriptions-panicked user="+strconv.Itoa(u.id))
 				return
 			}
 			if u.err != nil {
@@ -220,7 +233,7 @@ func freeRun(r *hx.Run, rnd *hx.Rand, idx int, maxUsers int) {
 				for i, k := range u.layers {
 					r.Case(fmt.Sprintf("free read user=%d layer=%d", u.id, k), true)
 					if msg := readBack(&ls[i], layers[k]); msg != "" {
-						r.Fail("", fmt.Sprintf("%s user=%d cannot-read-held-layer=%d round=%d: %s", label, u.id, k, round, msg))
+						failU(r, fmt.Sprintf("%s user=%d cannot-read-held-layer=%d round=%d: %s", label, u.id, k, round, msg))
 					}
 				}
 				y.maybe()
@@ -235,12 +248,12 @@ func freeRun(r *hx.Run, rnd *hx.Rand, idx int, maxUsers int) {
 					descs2[i] = srv.desc(k, false)
 				}
 				if hx.Guard(func() string { ls2, err2 = p.RealizeDescriptions(ctx, descs2); return "" }) == "panic" {
-					r.Fail("", fmt.Sprintf("%s user=%d second-RealizeDescriptions-panicked", label, u.id))
+					failU(r, fmt.Sprintf("%s user=%d second-RealizeDescriptions-panicked", label, u.id))
 				}
 				if err2 == nil {
 					for i, k := range u.layers {
 						if msg := readBack(&ls2[i], layers[k]); msg != "" {
-							r.Fail("", fmt.Sprintf("%s user=%d cannot-read-layer=%d of-its-second-Realize: %s", label, u.id, k, msg))
+							failU(r, fmt.Sprintf("%s user=%d cannot-read-layer=%d of-its-second-Realize: %s", label, u.id, k, msg))
 						}
 					}
 					r.Count("free:contract=realize-twice-one-close")
@@ -249,12 +262,12 @@ func freeRun(r *hx.Run, rnd *hx.Rand, idx int, maxUsers int) {
 			u.b = clock.Add(1)
 			var cerr error
 			if hx.Guard(func() string { cerr = p.Close(); return "" }) == "panic" || cerr != nil {
-				r.Fail("", fmt.Sprintf("%s user=%d Close-failed err=%v", label, u.id, cerr))
+				failU(r, fmt.Sprintf("%s user=%d Close-failed err=%v", label, u.id, cerr))
 			}
 			switch u.mode {
 			case 2:
 				if hx.Guard(func() string { cerr = p.Close(); return "" }) == "panic" || cerr != nil {
-					r.Fail("", fmt.Sprintf("%s user=%d second-Close-failed err=%v", label, u.id, cerr))
+					failU(r, fmt.Sprintf("%s user=%d second-Close-failed err=%v", label, u.id, cerr))
 				}
 				r.Count("free:contract=close-twice")
 			case 3:
@@ -265,18 +278,18 @@ func freeRun(r *hx.Run, rnd *hx.Rand, idx int, maxUsers int) {
 					descs3[i] = srv.desc(k, false)
 				}
 				if hx.Guard(func() string { ls3, err3 = p.RealizeDescriptions(ctx, descs3); return "" }) == "panic" {
-					r.Fail("", fmt.Sprintf("%s user=%d RealizeDescriptions-after-Close-panicked", label, u.id))
+					failU(r, fmt.Sprintf("%s user=%d RealizeDescriptions-after-Close-panicked", label, u.id))
 				}
 				if err3 == nil {
 					for i, k := range u.layers {
 						if msg := readBack(&ls3[i], layers[k]); msg != "" {
-							r.Fail("", fmt.Sprintf("%s user=%d cannot-read-layer=%d realized-after-Close: %s", label, u.id, k, msg))
+							failU(r, fmt.Sprintf("%s user=%d cannot-read-layer=%d realized-after-Close: %s", label, u.id, k, msg))
 						}
 					}
 					r.Count("free:contract=close-then-realize")
 				}
 				if hx.Guard(func() string { cerr = p.Close(); return "" }) == "panic" || cerr != nil {
-					r.Fail("", fmt.Sprintf("%s user=%d Close-after-second-use-failed err=%v", label, u.id, cerr))
+					failU(r, fmt.Sprintf("%s user=%d Close-after-second-use-failed err=%v", label, u.id, cerr))
 				}
 			}
 		}(u)
@@ -286,7 +299,7 @@ func freeRun(r *hx.Run, rnd *hx.Rand, idx int, maxUsers int) {
 	select {
 	case <-done:
 	case <-time.After(60 * time.Second):
-		r.Fail("", label+" users-stuck (deadlock or lost wake-up)")
+		failU(r, label+" users-stuck (deadlock or lost wake-up)")
 		return
 	}
 
@@ -302,7 +315,7 @@ func freeRun(r *hx.Run, rnd *hx.Rand, idx int, maxUsers int) {
 			for _, k := range u.layers {
 				for _, s := range rt.reqs[k] {
 					if s > u.a && s < u.b {
-						r.Fail("", fmt.Sprintf("%s download-while-held layer=%d holder=user%d held=(%d,%d) request-at=%d", label, k, u.id, u.a, u.b, s))
+						failU(r, fmt.Sprintf("%s download-while-held layer=%d holder=user%d held=(%d,%d) request-at=%d", label, k, u.id, u.a, u.b, s))
 					}
 				}
 			}
@@ -326,7 +339,7 @@ func freeRun(r *hx.Run, rnd *hx.Rand, idx int, maxUsers int) {
 			// error it gets is the cause of that cancellation, e.g. another layer's 500)
 			r.Count("free:user=failed(flight-of-a-cancelled-leader)")
 		default:
-			r.Fail("", fmt.Sprintf("%s healthy-user%d-failed layers=%v err=%v", label, u.id, u.layers, u.err))
+			failU(r, fmt.Sprintf("%s healthy-user%d-failed layers=%v err=%v", label, u.id, u.layers, u.err))
 		}
 	}
 	total, wanted := 0, 0
@@ -351,13 +364,20 @@ func freeRun(r *hx.Run, rnd *hx.Rand, idx int, maxUsers int) {
 	// the quiescent state is reached when the last flight has returned.
 	for deadline := time.Now().Add(10 * time.Second); flights.Load() != 0 || flightGoroutines() != 0; {
 		if time.Now().After(deadline) {
-			r.Fail("", label+" a-flight-is-still-running-10s-after-every-user-returned")
+			failU(r, label+" a-flight-is-still-running-10s-after-every-user-returned")
 			break
 		}
 		time.Sleep(50 * time.Microsecond)
 	}
 	fdsBeforeGC := arenaFDs(root)
 	kindsBeforeGC := arenaFDKinds(root)
+	// a reference that is still counted now was lost by the code (its Layer with it): say so
+	// before the collector gets to run the finalizers
+	for _, key := range arena.ArenaKeysForVerif() {
+		if c, _ := libindex.RcStateForVerif(arena.ArenaEntryForVerif(key)); c != 0 {
+			failU(r, fmt.Sprintf("%s arena-entry-still-referenced-after-every-user-closed %s count=%d", label, key, c))
+		}
+	}
 	runFinalizers()
 	keys := arena.ArenaKeysForVerif()
 	sort.Strings(keys)
@@ -371,23 +391,26 @@ func freeRun(r *hx.Run, rnd *hx.Rand, idx int, maxUsers int) {
 			r.Fail("orphan-after-cancel", fmt.Sprintf("%s arena-keeps %s count=0 file-open after every user is done (user cancellations=%v failing layers=%d)", label, key, anyCancel, len(bad)))
 			continue
 		}
-		r.Fail("", fmt.Sprintf("%s arena-not-empty-after-all-closed %s count=%d open=%v", label, key, c, open))
+		failU(r, fmt.Sprintf("%s arena-not-empty-after-all-closed %s count=%d open=%v", label, key, c, open))
 	}
 	if n := arenaFDs(root); n != orphans {
-		r.Fail("", fmt.Sprintf("%s open-descriptors-into-arena-after-all-closed n=%d expected=%d", label, n, orphans))
+		failU(r, fmt.Sprintf("%s open-descriptors-into-arena-after-all-closed n=%d expected=%d", label, n, orphans))
 	} else if fdsBeforeGC != orphans {
-		r.Fail("", fmt.Sprintf("%s descriptors-into-arena-released-only-by-the-garbage-collector before-gc=%d(%s) after-gc=%d", label, fdsBeforeGC, kindsBeforeGC, n))
+		failU(r, fmt.Sprintf("%s descriptors-into-arena-released-only-by-the-garbage-collector before-gc=%d(%s) after-gc=%d", label, fdsBeforeGC, kindsBeforeGC, n))
 	}
 	if n := dirEntries(root); n != 0 {
-		r.Fail("", fmt.Sprintf("%s files-left-in-arena-dir n=%d", label, n))
+		failU(r, fmt.Sprintf("%s files-left-in-arena-dir n=%d", label, n))
+	}
+	if n := checkedOutConns(client); n != 0 {
+		failU(r, fmt.Sprintf("%s http-connections-still-checked-out-after-every-fetch-ended n=%d", label, n))
 	}
 	// the arena's own Close: it forgets every key
 	var aerr error
 	if hx.Guard(func() string { aerr = arena.Close(context.Background()); return "" }) == "panic" || aerr != nil {
-		r.Fail("", fmt.Sprintf("%s arena-Close-failed err=%v", label, aerr))
+		failU(r, fmt.Sprintf("%s arena-Close-failed err=%v", label, aerr))
 	}
 	if ks := arena.ArenaKeysForVerif(); len(ks) != 0 {
-		r.Fail("", fmt.Sprintf("%s arena-Close-left-keys n=%d", label, len(ks)))
+		failU(r, fmt.Sprintf("%s arena-Close-left-keys n=%d", label, len(ks)))
 	}
 	client.CloseIdleConnections()
 	srv.close()
@@ -411,7 +434,7 @@ func churnRun(r *hx.Run, rnd *hx.Rand, idx int) {
 	client := &http.Client{Transport: rt}
 	root, err := os.MkdirTemp("", "c10-churn-")
 	if err != nil {
-		r.Fail("", "cannot-create-arena "+err.Error())
+		failU(r, "cannot-create-arena "+err.Error())
 		return
 	}
 	defer os.RemoveAll(root)
@@ -457,14 +480,14 @@ func churnRun(r *hx.Run, rnd *hx.Rand, idx int) {
 				var ls []claircore.Layer
 				var err error
 				if hx.Guard(func() string { ls, err = p.RealizeDescriptions(ctx, descs); return "" }) == "panic" || err != nil {
-					r.Fail("", fmt.Sprintf("%s user=%d round=%d RealizeDescriptions-failed err=%v", label, u, round, err))
+					failU(r, fmt.Sprintf("%s user=%d round=%d RealizeDescriptions-failed err=%v", label, u, round, err))
 					return
 				}
 				a := clock.Add(1)
 				for i, k := range want {
 					r.Case(fmt.Sprintf("churn read user=%d layer=%d", u, k), true)
 					if msg := readBack(&ls[i], layers[k]); msg != "" {
-						r.Fail("", fmt.Sprintf("%s user=%d cannot-read-held-layer=%d round=%d: %s", label, u, k, round, msg))
+						failU(r, fmt.Sprintf("%s user=%d cannot-read-held-layer=%d round=%d: %s", label, u, k, round, msg))
 					}
 				}
 				for i := 0; i < (u+round)%4; i++ {
@@ -473,7 +496,7 @@ func churnRun(r *hx.Run, rnd *hx.Rand, idx int) {
 				b := clock.Add(1)
 				var cerr error
 				if hx.Guard(func() string { cerr = p.Close(); return "" }) == "panic" || cerr != nil {
-					r.Fail("", fmt.Sprintf("%s user=%d round=%d Close-failed err=%v", label, u, round, cerr))
+					failU(r, fmt.Sprintf("%s user=%d round=%d Close-failed err=%v", label, u, round, cerr))
 				}
 				hmu.Lock()
 				for _, k := range want {
@@ -489,7 +512,7 @@ func churnRun(r *hx.Run, rnd *hx.Rand, idx int) {
 	select {
 	case <-done:
 	case <-time.After(60 * time.Second):
-		r.Fail("", label+" users-stuck (deadlock or lost wake-up)")
+		failU(r, label+" users-stuck (deadlock or lost wake-up)")
 		return
 	}
 	rt.mu.Lock()
@@ -497,7 +520,7 @@ func churnRun(r *hx.Run, rnd *hx.Rand, idx int) {
 	for _, h := range holds {
 		for _, s := range rt.reqs[h.k] {
 			if s > h.a && s < h.b {
-				r.Fail("", fmt.Sprintf("%s download-while-held layer=%d holder=user%d held=(%d,%d) request-at=%d", label, h.k, h.user, h.a, h.b, s))
+				failU(r, fmt.Sprintf("%s download-while-held layer=%d holder=user%d held=(%d,%d) request-at=%d", label, h.k, h.user, h.a, h.b, s))
 			}
 		}
 	}
@@ -512,7 +535,7 @@ func churnRun(r *hx.Run, rnd *hx.Rand, idx int) {
 	}
 	for deadline := time.Now().Add(10 * time.Second); flightGoroutines() != 0; {
 		if time.Now().After(deadline) {
-			r.Fail("", label+" a-flight-is-still-running-10s-after-every-user-returned")
+			failU(r, label+" a-flight-is-still-running-10s-after-every-user-returned")
 			break
 		}
 		time.Sleep(50 * time.Microsecond)
@@ -521,17 +544,19 @@ func churnRun(r *hx.Run, rnd *hx.Rand, idx int) {
 	runFinalizers()
 	for _, key := range arena.ArenaKeysForVerif() {
 		c, open := libindex.RcStateForVerif(arena.ArenaEntryForVerif(key))
-		r.Fail("", fmt.Sprintf("%s arena-not-empty-after-all-closed %s count=%d open=%v", label, key, c, open))
+		failU(r, fmt.Sprintf("%s arena-not-empty-after-all-closed %s count=%d open=%v", label, key, c, open))
 	}
 	if n := arenaFDs(root); n != 0 {
-		r.Fail("", fmt.Sprintf("%s open-descriptors-into-arena-after-all-closed n=%d", label, n))
+		failU(r, fmt.Sprintf("%s open-descriptors-into-arena-after-all-closed n=%d", label, n))
 	} else if fdsBeforeGC != 0 {
-		r.Fail("", fmt.Sprintf("%s descriptors-into-arena-released-only-by-the-garbage-collector before-gc=%d", label, fdsBeforeGC))
+		failU(r, fmt.Sprintf("%s descriptors-into-arena-released-only-by-the-garbage-collector before-gc=%d", label, fdsBeforeGC))
 	}
 	if n := dirEntries(root); n != 0 {
-		r.Fail("", fmt.Sprintf("%s files-left-in-arena-dir n=%d", label, n))
+		failU(r, fmt.Sprintf("%s files-left-in-arena-dir n=%d", label, n))
 	}
-	client.CloseIdleConnections()
+	if n := checkedOutConns(client); n != 0 {
+		failU(r, fmt.Sprintf("%s http-connections-still-checked-out-after-every-fetch-ended n=%d", label, n))
+	}
 	srv.close()
 }
 
@@ -553,7 +578,7 @@ func freeRuns(r *hx.Run, cfg hx.Config, rnd *hx.Rand) {
 		runtime.GOMAXPROCS(old)
 		if i%10 == 9 {
 			if g := settleGoroutines(base, 3); g > base+3 {
-				r.Fail("", fmt.Sprintf("goroutines-leaked-by-free-runs before=%d after=%d run=%d", base, g, i))
+				failU(r, fmt.Sprintf("goroutines-leaked-by-free-runs before=%d after=%d run=%d", base, g, i))
 				base = g
 			}
 		}
